@@ -24,4 +24,7 @@ def run(rep, fb, tier):
     _lv.rule_call_roles(rep, fb)
     from ..rules import lints2 as _l2
     _l2.rule_union_builder_index(rep, fb)
+    from ..rules import lints3 as _l3
+    _l3.rule_union_alternatives(rep, fb)
+    _l3.rule_forth_source_literals(rep, fb)
     rep.units = fb.units
